@@ -274,8 +274,11 @@ def monitor_server_upstream(ctx, pre):
                     "requests_seen_by_the_upstream": hits, "upstream_request_carried_a_bearer_token": b[1].endswith("1"),
                     "input": li.strip(), "impl": lo.strip()}
             if hits > 0:
-                ctx.violation("c16-server-request-reaches-upstream", "an instance in SSO-server mode proxied a request to the upstream"
-                              + (" with the session's bearer token" if b[1].endswith("1") else ""), case)
+                if b[1].endswith("1"):
+                    ctx.violation("c16-server-request-reaches-upstream-with-token", "an instance in SSO-server mode proxied a request to the upstream "
+                                  "with the bearer token of the session", case)
+                else:
+                    ctx.violation("c16-server-request-reaches-upstream", "an instance in SSO-server mode proxied a request to the upstream", case)
             elif method == "BREW":
                 if status != 405:
                     ctx.violation("c16-server-wildcard-not-redirect", "SSO server: unknown method not answered 405", case)
